@@ -92,14 +92,22 @@ def build_overlay():
     return path
 
 
-def build_harness():
-    """go build of cmd/verifrun inside /repo (overlay). Returns (ok, stderr)."""
+def build_harness(bins=("verifrun",)):
+    """go build of cmd/<bin> inside /repo (overlay). Returns (ok, output)."""
     ov = build_overlay()
     os.makedirs(os.path.join(WORK, "bin"), exist_ok=True)
-    out = os.path.join(WORK, "bin", "verifrun")
-    rc, so, se = run(["go", "build", "-tags", "verif", "-overlay", ov, "-o", out, "./cmd/verifrun"],
-                     cwd=REPO, env=GOENV, timeout=1500)
-    return rc == 0, (so + se)
+    ok, txt = True, ""
+    for b in bins:
+        out = os.path.join(WORK, "bin", b)
+        try:
+            os.remove(out)  # never run a stale binary
+        except OSError:
+            pass
+        rc, so, se = run(["go", "build", "-tags", "verif", "-overlay", ov, "-o", out, "./cmd/" + b],
+                         cwd=REPO, env=GOENV, timeout=1500)
+        ok = ok and rc == 0
+        txt += so + se
+    return ok, txt
 
 
 # ---------------------------------------------------------------------------
@@ -239,12 +247,13 @@ def leanchecker(modules):
 # Correspondence
 # ---------------------------------------------------------------------------
 
-def run_workload(name, seed, n, wide=False, replay=None, extra_args=(), timeout=3000, tag=""):
+def run_workload(name, seed, n, wide=False, replay=None, extra_args=(), timeout=3000, tag="",
+                 hbin="verifrun", driver="ldriver"):
     """verifrun <name> → cases file → ldriver → verdicts. Returns a stats dict."""
     os.makedirs(os.path.join(WORK, "runs"), exist_ok=True)
     base = os.path.join(WORK, "runs", "%s%s-%d-%d" % (name, tag, seed, os.getpid()))
     cases_path, verd_path = base + ".cases.jsonl", base + ".verdicts.jsonl"
-    cmd = [os.path.join(WORK, "bin", "verifrun"), name, "-seed", str(seed), "-n", str(n)]
+    cmd = [os.path.join(WORK, "bin", hbin), name, "-seed", str(seed), "-n", str(n)]
     if wide:
         cmd.append("-wide")
     if replay:
@@ -252,7 +261,7 @@ def run_workload(name, seed, n, wide=False, replay=None, extra_args=(), timeout=
     cmd += list(extra_args)
     env = dict(GOENV)
     env.setdefault("GOMEMLIMIT", "8GiB")
-    env["VERIF_LDRIVER"] = os.path.join(LEAN, ".lake", "build", "bin", "ldriver")
+    env["VERIF_LDRIVER"] = os.path.join(LEAN, ".lake", "build", "bin", driver)
     t0 = time.time()
     with open(cases_path, "w") as cf:
         try:
@@ -262,7 +271,7 @@ def run_workload(name, seed, n, wide=False, replay=None, extra_args=(), timeout=
         except subprocess.TimeoutExpired as e:
             rc, se = 124, "timeout: " + str(e)
     with open(cases_path) as cf, open(verd_path, "w") as vf:
-        p = subprocess.run([os.path.join(LEAN, ".lake", "build", "bin", "ldriver")],
+        p = subprocess.run([os.path.join(LEAN, ".lake", "build", "bin", driver)],
                            stdin=cf, stdout=vf, stderr=subprocess.PIPE, text=True, timeout=timeout)
         drc, dse = p.returncode, p.stderr
     st = {"workload": name, "seed": seed, "requested": n, "harness_rc": rc,
